@@ -3,7 +3,7 @@
    `fin` (the whole-file rewrite) are universally quantified: the theorems hold for every
    generator output; that the real generator is a function of the design is OBSERVED by
    the harness (byte comparison across runs and processes), not proved. *)
-From GenFS Require Import Model Generated_mapranges Run Lemmas.
+From GenFS Require Import Model Generated_mapranges Run Lemmas LemmasPaths.
 From Coq Require Import String List NArith Bool Permutation Sorted.
 Import ListNotations.
 
@@ -229,6 +229,76 @@ Print Assumptions all_example_file_sites_skip_exist.
 Theorem no_ambient_inputs (a : ambient_site) : In a ambient_sites -> aallowed a = true.
 Proof. exact (proj1 (forallb_forall aallowed ambient_sites) ambient_sweep a). Qed.
 Print Assumptions no_ambient_inputs.
+
+(* ---- where gen files land: discharging all_gen_files_in_subdirs from the source ---- *)
+
+(* codegen.SnakeCase (ASCII model, compared with the real function on every run) turns a
+   name made of letters, digits, '_', '-' and blanks, not all blank, into a NON-EMPTY word
+   over [a-z0-9_]: a directory name without '/', '.' or "..". _partial: the bytes of the
+   name are restricted (see the _refuted companion); Goify stands between DSL names and
+   SnakeCase in goa. *)
+Theorem snake_case_is_directory_name_partial (name : bytes) :
+  Forall (fun b => name_byte b = true) name -> has_nonspace name ->
+  snake_case name <> [] /\ Forall (fun b => dir_byte b = true) (snake_case name).
+Proof. exact (snake_case_dir_l name). Qed.
+Print Assumptions snake_case_is_directory_name_partial.
+
+Theorem snake_case_is_directory_name_refuted :
+  exists name, has_nonspace name /\
+    in_gen_subdir_b (join_clean (inst (snake_case name) [PGendir; PSvc; PLit [115; 46; 103; 111]%N])) = false.
+Proof.
+  exists [46; 46]%N. split; [exists 46%N; split; [left; reflexivity|reflexivity]|].
+  destruct snake_case_dotdot as [_ ->]. reflexivity.
+Qed.
+Print Assumptions snake_case_is_directory_name_refuted.
+
+(* filepath.Join (model of Join + Clean on relative slash paths, compared with the real
+   function on every run) of safe components is the list of those components *)
+Theorem join_of_safe_components (l : list bytes) :
+  Forall (fun c => safe_component c = true) l -> join_clean l = l.
+Proof. exact (join_clean_safe l). Qed.
+Print Assumptions join_of_safe_components.
+
+(* a Path computed as filepath.Join(codegen.Gendir, c1, c2, ...) with two or more further
+   components, each a safe literal or a safe service directory, lies inside a sub-directory
+   of gen/ *)
+Theorem gen_path_in_subdir (svc : bytes) (sh : list pcomp) :
+  safe_component svc = true -> shape_ok sh = true ->
+  in_gen_subdir_b (join_clean (inst svc sh)) = true.
+Proof. exact (shape_in_subdir_l svc sh). Qed.
+Print Assumptions gen_path_in_subdir.
+
+(* sweep over the table translated from the source on this run: the Path of every
+   codegen.File literal reachable from the gen generators has such a shape (two inspected
+   sites: user-type files under struct:pkg:path, the .proto file) *)
+Theorem all_gen_path_sites_in_subdirs (s : path_site) :
+  In s gen_path_sites -> path_site_ok s = true.
+Proof. exact (path_sites_ok s). Qed.
+Print Assumptions all_gen_path_sites_in_subdirs.
+
+(* together: for every non-inspected gen file site of the source and every service name in
+   the envelope the computed path is in a sub-directory of gen/ — the hypothesis
+   all_gen_files_in_subdirs of gen_idempotent / gen_preserves_outside, derived from the code
+   instead of observed *)
+Theorem gen_files_in_subdirs_from_source_partial (s : path_site) (name : bytes) :
+  In s gen_path_sites -> pinspected s = false ->
+  Forall (fun b => name_byte b = true) name -> has_nonspace name ->
+  in_gen_subdir_b (join_clean (inst (snake_case name) (pshape s))) = true.
+Proof. exact (inventory_paths_in_subdir_l s name). Qed.
+Print Assumptions gen_files_in_subdirs_from_source_partial.
+
+Example snake_case_examples :
+  snake_case [79; 108; 100; 78; 101; 119; 115]%N = [111; 108; 100; 95; 110; 101; 119; 115]%N /\   (* OldNews -> old_news *)
+  snake_case [67; 78; 78; 78; 101; 119; 115]%N = [99; 110; 110; 95; 110; 101; 119; 115]%N /\       (* CNNNews -> cnn_news *)
+  snake_case [32; 97; 32; 32; 98; 45; 67; 32]%N = [97; 95; 98; 95; 99]%N /\                         (* " a  b-C " -> a_b_c *)
+  join_clean [gen_name; [99; 97; 108; 99]%N; []; [46]%N; [115; 46; 103; 111]%N] = [gen_name; [99; 97; 108; 99]%N; [115; 46; 103; 111]%N] /\
+  20 <= List.length gen_path_sites /\ (exists s, In s gen_path_sites /\ shape_ok (pshape s) = true).
+Proof.
+  repeat split; try (vm_compute; reflexivity).
+  - vm_compute. repeat constructor.
+  - exists (mk_path_site "http/codegen/openapi/v3:Files#0@0" [PGendir; PLit [104;116;116;112]%N; PLit [111;112;101;110;97;112;105;51;46;106;115;111;110]%N] false).
+    split; [vm_compute; tauto|reflexivity].
+Qed.
 
 (* non-vacuity *)
 Example inventories_nonempty :
